@@ -142,9 +142,9 @@ def units_for(prop, tier, gdir):
                         units.append(engine.Unit(cn, fn, 3, sp, infos[cn], gen, timeout=7200, sym=False, case=case, rangelen=2))
                         if 'SPEC_RANGE_LEN' not in ' '.join(c.expr for c in sp.funcs[fn].clauses):
                             # larger capacities from the symmetry-reduced pre-state (cost grows gently with it)
-                            # (measured: capacity 4 < 2.5 min per unit everywhere; 5 and 6 < 20 min for the list/vector
-                            # caches, but single units of lfu, ut_map, ut_set ran for 1-2 h or into the limit)
-                            for bigcap in ((4, 5, 6) if cn in ('lru_cache', 'mru_cache', 'rr_cache', 'fifo_cache') else (4,)):
+                            # (measured: capacity 4 < 2.5 min per unit everywhere; 5 and 6 < 10 min for lru and mru, 5 < 2 min
+                            # for fifo; single units of rr, lfu, ut_map, ut_set at 5 or 6 ran for 1-2 h or into the limit)
+                            for bigcap in {'lru_cache': (4, 5, 6), 'mru_cache': (4, 5, 6), 'fifo_cache': (4, 5)}.get(cn, (4,)):
                                 units.append(engine.Unit(cn, fn, bigcap, sp, infos[cn], gen, timeout=7200, sym=True, case=case, rangelen=1))
                 elif cn in ('tlru_cache', 'utlru_cache') and qcap != 3 and 'SPEC_RANGE_LEN' not in ' '.join(c.expr for c in sp.funcs[fn].clauses):
                     for case in case_list(sp.funcs[fn], tier):
